@@ -301,6 +301,26 @@ def is_identity_call(path):
     return False
 
 
+import re as _re
+_WIDEN = _re.compile(r"^std::convert::num::<impl std::convert::From<(u8|u16|u32|u64|bool|i8|i16|i32)> for (u16|u32|u64|u128|usize|i16|i32|i64|i128|isize)>::from$")
+
+
+def is_widening_from(path):
+    """`usize::from(x: u16)` and friends: value-preserving integer widening of std (the clippy-preferred spelling of `as`)"""
+    return bool(_WIDEN.match(path or ""))
+
+
+def unwiden(t):
+    """strip integer widenings (`as` casts and lossless `From` conversions) from the outside of a term"""
+    while True:
+        if t[0] == "cast" and t[1] == "IntToInt":
+            t = t[2]
+        elif t[0] == "call" and len(t[2]) == 1 and is_widening_from(t[1]):
+            t = t[2][0]
+        else:
+            return t
+
+
 def strip(t, calls=True):
     """remove refs/derefs and identity calls from the outside of a term."""
     while True:
